@@ -184,7 +184,8 @@ def conclude(pid, spec, results, tier, seed, wall, kani=(), extra_viol=()):
     for (kid, what, fn), k in sorted(known_hit.items()):
         out_lines.append('KNOWN-FINDING: property=%s %s %s :: %s' % (pid, kid, fn, k.get('what', '')))
     replay_paths = []
-    if violations and not undecided:
+    if violations:
+        # a definite verdict of a unit that ran (or a replayed failing input) stands even if another unit is undecided
         os.makedirs(REPLAYS, exist_ok=True)
         import replay
         for i, (r, d, key) in enumerate(violations):
@@ -205,7 +206,8 @@ def conclude(pid, spec, results, tier, seed, wall, kani=(), extra_viol=()):
     if undecided:
         for u in undecided:
             out_lines.append('UNDECIDED property=%s %s' % (pid, u))
-        rc = 2
+        if rc == 0:
+            rc = 2
     for l in out_lines:
         print(l)
     n_obl = len(all_obl)
